@@ -26,7 +26,7 @@ class Cfg:
 
     def header(self):
         return {"kind": self.kind, "tls": self.tls, "ctmo": -1 if self.ctmo is None else self.ctmo,
-                "tmo": -1 if self.tmo is None else self.tmo, "idle": self.idle, "ignore_exc": self.ignore_exc}
+                "tmo": -1 if self.tmo is None else self.tmo, "idle": self.idle, "ignore_exc": self.ignore_exc, "asks": True}
 
     def key(self):
         return tuple(sorted(self.__dict__.items()))
@@ -165,7 +165,10 @@ class Stack:
         rfault = any(k[0] == "reply" for k in plan) or op in ILLEGAL_KEY_OPS
         kind = "quit" if op in ("quit", "shutdown") else "close" if op == "close" else "data"
         ro = op in READ_OPS
-        self.events.append({"e": "call", "c": c, "op": op, "kind": kind, "rfault": rfault, "ro": ro})
+        # every data operation of these programs names at least one key (or is keyless like version / stats / flush_all):
+        # it cannot be answered without asking the server
+        asks = kind == "data" and op not in ILLEGAL_KEY_OPS
+        self.events.append({"e": "call", "c": c, "op": op, "kind": kind, "rfault": rfault, "ro": ro, "asks": asks})
         self.net.begin_call(c, plan, seg)
         if op in ("close", "getitem_miss") or op in ILLEGAL_KEY_OPS:
             args, kw = (), {}
